@@ -92,20 +92,21 @@ theorem propagate_mem_fires {p c : Frame} (hl : p.live = true) (hc : c.inhMem = 
 is, if the body is terminated for CPU, the bracket's parent (when it is CPU-limited) is terminated
 too — the call exits with the same termination, the parent is `killed`, the stack is aligned, and
 nothing was executed in between (the events are those of the body). -/
-theorem limitless_bracket_propagates_cpu (a : Acc) (d : CtxDef) (body : List Item) (hw : wfBody body = true)
+theorem limitless_bracket_propagates_cpu (a : Acc) (d : CtxDef) (body hs : List Item) (hw : wfBody body = true)
+    (hwh : wfBody hs = true)
     (hi : Inv a.st) (hl : a.st.cur.live = true) (hd : d.hard.Cpu = 0#64) (hL : a.st.cur.hard.Cpu ≠ 0#64)
-    (hk : (runBody { a with st := push a.st d } body).2 = .killed .cpu) :
-    (runItem a (.call d body)).2 = .killed .cpu ∧
-    (runItem a (.call d body)).1.st.cur.status = StatusKilled ∧
-    LowerL (runItem a (.call d body)).1.st.parents a.st.parents ∧
-    (runItem a (.call d body)).1.events = (runBody { a with st := push a.st d } body).1.events ∧
-    (runItem a (.call d body)).1.results = (runBody { a with st := push a.st d } body).1.results := by
-  have gb := good_body { a with st := push a.st d } body hw (inv_step (.push d) hi hl) rfl
-  cases hr : runBody { a with st := push a.st d } body with
+    (hk : (runCall a d body hs).2 = .killed .cpu) :
+    (runItem a (.call d body hs)).2 = .killed .cpu ∧
+    (runItem a (.call d body hs)).1.st.cur.status = StatusKilled ∧
+    LowerL (runItem a (.call d body hs)).1.st.parents a.st.parents ∧
+    (runItem a (.call d body hs)).1.events = (runCall a d body hs).1.events ∧
+    (runItem a (.call d body hs)).1.results = (runCall a d body hs).1.results := by
+  have gb := good_call a d body hs hw hwh hi hl
+  cases hr : runCall a d body hs with
   | mk a1 ex =>
     rw [hr] at gb hk
     simp only at hk; subst hk
-    obtain ⟨p', ps', _, hlp, hlps, hc2, hcp, hp, hpl, hrest, hrun⟩ := call_unfold a d body a1 _ hr gb hl
+    obtain ⟨p', ps', _, hlp, hlps, hc2, hcp, hp, hpl, hrest, hrun⟩ := call_unfold a d body hs a1 _ hr gb hl
     have hflag : (afterBody (Exit.killed .cpu) a1.st).cur.inhCpu = true := by
       rw [(afterBody_inh _ a1.st).1, gb.inh.1]; exact child_inh_cpu a.st.cur d hd hL
     have hfire := propagate_cpu_fires (c := (afterBody (Exit.killed .cpu) a1.st).cur) hpl hflag
@@ -114,20 +115,21 @@ theorem limitless_bracket_propagates_cpu (a : Acc) (d : CtxDef) (body : List Ite
 
 /-- the same for memory — with the flag of 52f8e49 no proviso is needed: releases that cascade into
 the parent during the body (8007e69) do not change the flag recorded at push. -/
-theorem limitless_bracket_propagates_mem (a : Acc) (d : CtxDef) (body : List Item) (hw : wfBody body = true)
+theorem limitless_bracket_propagates_mem (a : Acc) (d : CtxDef) (body hs : List Item) (hw : wfBody body = true)
+    (hwh : wfBody hs = true)
     (hi : Inv a.st) (hl : a.st.cur.live = true) (hd : d.hard.Memory = 0#64) (hL : a.st.cur.hard.Memory ≠ 0#64)
-    (hk : (runBody { a with st := push a.st d } body).2 = .killed .mem) :
-    (runItem a (.call d body)).2 = .killed .mem ∧
-    (runItem a (.call d body)).1.st.cur.status = StatusKilled ∧
-    LowerL (runItem a (.call d body)).1.st.parents a.st.parents ∧
-    (runItem a (.call d body)).1.events = (runBody { a with st := push a.st d } body).1.events ∧
-    (runItem a (.call d body)).1.results = (runBody { a with st := push a.st d } body).1.results := by
-  have gb := good_body { a with st := push a.st d } body hw (inv_step (.push d) hi hl) rfl
-  cases hr : runBody { a with st := push a.st d } body with
+    (hk : (runCall a d body hs).2 = .killed .mem) :
+    (runItem a (.call d body hs)).2 = .killed .mem ∧
+    (runItem a (.call d body hs)).1.st.cur.status = StatusKilled ∧
+    LowerL (runItem a (.call d body hs)).1.st.parents a.st.parents ∧
+    (runItem a (.call d body hs)).1.events = (runCall a d body hs).1.events ∧
+    (runItem a (.call d body hs)).1.results = (runCall a d body hs).1.results := by
+  have gb := good_call a d body hs hw hwh hi hl
+  cases hr : runCall a d body hs with
   | mk a1 ex =>
     rw [hr] at gb hk
     simp only at hk; subst hk
-    obtain ⟨p', ps', _, hlp, hlps, hc2, hcp, hp, hpl, hrest, hrun⟩ := call_unfold a d body a1 _ hr gb hl
+    obtain ⟨p', ps', _, hlp, hlps, hc2, hcp, hp, hpl, hrest, hrun⟩ := call_unfold a d body hs a1 _ hr gb hl
     have hflag : (afterBody (Exit.killed .mem) a1.st).cur.inhMem = true := by
       rw [(afterBody_inh _ a1.st).2, gb.inh.2]; exact child_inh_mem a.st.cur d hd hL
     have hfire := propagate_mem_fires (c := (afterBody (Exit.killed .mem) a1.st).cur) hpl hflag
@@ -138,20 +140,21 @@ theorem limitless_bracket_propagates_mem (a : Acc) (d : CtxDef) (body : List Ite
 strictly below what the parent has left (or the parent is not CPU-limited) and its body is
 terminated for CPU, the call returns normally, hands back a context with status `killed`, and the
 parent stays live. -/
-theorem own_limit_dies_alone (a : Acc) (d : CtxDef) (body : List Item) (hw : wfBody body = true)
+theorem own_limit_dies_alone (a : Acc) (d : CtxDef) (body hs : List Item) (hw : wfBody body = true)
+    (hwh : wfBody hs = true)
     (hi : Inv a.st) (hl : a.st.cur.live = true) (hd : d.hard.Cpu ≠ 0#64)
     (htight : a.st.cur.hard.Cpu = 0#64 ∨ d.hard.Cpu.toNat < a.st.cur.hard.Cpu.toNat - a.st.cur.used.Cpu.toNat)
-    (hk : (runBody { a with st := push a.st d } body).2 = .killed .cpu) :
-    (runItem a (.call d body)).2 = .done ∧ (runItem a (.call d body)).1.st.cur.live = true ∧
-    LowerL (runItem a (.call d body)).1.st.parents a.st.parents ∧
-    ∃ r, (runItem a (.call d body)).1.results = r :: (runBody { a with st := push a.st d } body).1.results ∧
+    (hk : (runCall a d body hs).2 = .killed .cpu) :
+    (runItem a (.call d body hs)).2 = .done ∧ (runItem a (.call d body hs)).1.st.cur.live = true ∧
+    LowerL (runItem a (.call d body hs)).1.st.parents a.st.parents ∧
+    ∃ r, (runItem a (.call d body hs)).1.results = r :: (runCall a d body hs).1.results ∧
       r.status = StatusKilled ∧ r.exit = .killed .cpu := by
-  have gb := good_body { a with st := push a.st d } body hw (inv_step (.push d) hi hl) rfl
-  cases hr : runBody { a with st := push a.st d } body with
+  have gb := good_call a d body hs hw hwh hi hl
+  cases hr : runCall a d body hs with
   | mk a1 ex =>
     rw [hr] at gb hk
     simp only at hk; subst hk
-    obtain ⟨p', ps', _, hlp, hlps, hc2, hcp, hp, hpl, hrest, hrun⟩ := call_unfold a d body a1 _ hr gb hl
+    obtain ⟨p', ps', _, hlp, hlps, hc2, hcp, hp, hpl, hrest, hrun⟩ := call_unfold a d body hs a1 _ hr gb hl
     have hsame := afterBody_same (Exit.killed .cpu) a1.st
     have hs := charged_same p' (afterBody (Exit.killed .cpu) a1.st).cur
     -- the child is not flagged: its limit is its own
@@ -183,10 +186,12 @@ mutual
     match it with
     | .op o => cases o <;> simp [Item.pcallCpu] at h <;> rfl
     | .err => simp [Item.pcallCpu] at h
-    | .call d body =>
+    | .call d body hs =>
       unfold Item.pcallCpu at h; unfold Item.wf
-      simp only [Bool.and_eq_true] at h
-      exact bodyPcallCpu_wf body h.2
+      simp only [Bool.and_eq_true, decide_eq_true_eq] at h
+      rw [h.1.2]
+      simp only [Bool.and_eq_true]
+      exact ⟨bodyPcallCpu_wf body h.2, rfl⟩
   theorem bodyPcallCpu_wf (body : List Item) (h : bodyPcallCpu body = true) : wfBody body = true := by
     match body with
     | [] => rfl
@@ -201,7 +206,7 @@ mutual
     match it with
     | .op o => cases o <;> first | trivial | (unfold Item.fits at h ⊢; omega)
     | .err => trivial
-    | .call d body => unfold Item.fits at h ⊢; exact fits_mono_body hle body h
+    | .call d body hs => unfold Item.fits at h ⊢; exact fits_mono_body hle body h
   theorem fits_mono_body {B B' : Nat} (hle : B' ≤ B) (body : List Item) (h : bodyFits B body) : bodyFits B' body := by
     match body with
     | [] => trivial
@@ -339,11 +344,11 @@ mutual
       | relMem n => simp [Item.pcallCpu] at hw
       | stop l => simp [Item.pcallCpu] at hw
       | due => simp [Item.pcallCpu] at hw
-    | .call d body =>
-      have hw' : d = CtxDef.none ∧ bodyPcallCpu body = true := by
+    | .call d body hs =>
+      have hw' : (d = CtxDef.none ∧ hs = []) ∧ bodyPcallCpu body = true := by
         have := hw; unfold Item.pcallCpu at this; simpa using this
-      obtain ⟨rfl, hwb⟩ := hw'
-      have hcost : (Item.call CtxDef.none body).cost = bodyCost body := by simp [Item.cost]
+      obtain ⟨⟨rfl, rfl⟩, hwb⟩ := hw'
+      have hcost : (Item.call CtxDef.none body []).cost = bodyCost body := by simp [Item.cost]
       rw [hcost]
       have hpo : FrameOk a.st.cur := hi.1
       obtain ⟨hcm, hch, hcu⟩ := child_none_metered hm hpo
@@ -367,7 +372,7 @@ mutual
           rw [hr] at hd hm1 hu1 hh1 hp1 hi1 hev1 gb
           simp only at hd; subst hd
           obtain ⟨p', ps', _, hlp, hlps, hc2, hcp, hp, hpl, hrest, hrun⟩ :=
-            call_unfold a CtxDef.none body a1 _ hr gb hm.live
+            call_unfold a CtxDef.none body [] a1 _ (by rw [runCall_nil]; exact hr) gb hm.live
           have hab : afterBody Exit.done a1.st = a1.st := (afterBody_same Exit.done a1.st).2.2.2.2 (fun c => nomatch c)
           rw [hab] at hc2 hcp hrun
           have hdone : afterPop a1 Exit.done a1.st (charged p' a1.st.cur) ps' =
@@ -395,10 +400,11 @@ mutual
             exact ⟨new, en, on⟩
       · intro hge
         obtain ⟨hk, hs1, hp1, hev1⟩ := eb.die (by rw [hcu0, hch']; omega)
-        obtain ⟨h1, h2, h3, h4, _⟩ := limitless_bracket_propagates_cpu a CtxDef.none body hwf hi hm.live rfl hm.lim hk
+        obtain ⟨h1, h2, h3, h4, _⟩ := limitless_bracket_propagates_cpu a CtxDef.none body [] hwf rfl hi hm.live rfl
+          hm.lim (by rw [runCall_nil]; exact hk)
         refine ⟨h1, h2, h3, ?_⟩
         obtain ⟨k, oks, ek, hkt, hoks⟩ := hev1
-        exact ⟨k, oks, by rw [h4]; exact ek, hkt, hoks⟩
+        exact ⟨k, oks, by rw [h4, runCall_nil]; exact ek, hkt, hoks⟩
 end
 
 theorem runItem_op (a : Acc) (o : Op) :
@@ -417,10 +423,12 @@ mutual
     match it with
     | .op o => cases o <;> simp [Item.pcallMem] at h <;> rfl
     | .err => simp [Item.pcallMem] at h
-    | .call d body =>
+    | .call d body hs =>
       unfold Item.pcallMem at h; unfold Item.wf
-      simp only [Bool.and_eq_true] at h
-      exact bodyPcallMem_wf body h.2
+      simp only [Bool.and_eq_true, decide_eq_true_eq] at h
+      rw [h.1.2]
+      simp only [Bool.and_eq_true]
+      exact ⟨bodyPcallMem_wf body h.2, rfl⟩
   theorem bodyPcallMem_wf (body : List Item) (h : bodyPcallMem body = true) : wfBody body = true := by
     match body with
     | [] => rfl
@@ -547,10 +555,10 @@ mutual
       | reqCpu n => simp [Item.pcallMem] at hw
       | stop l => simp [Item.pcallMem] at hw
       | due => simp [Item.pcallMem] at hw
-    | .call d body =>
-      have hw' : d = CtxDef.none ∧ bodyPcallMem body = true := by
+    | .call d body hs =>
+      have hw' : (d = CtxDef.none ∧ hs = []) ∧ bodyPcallMem body = true := by
         have := hw; unfold Item.pcallMem at this; simpa using this
-      obtain ⟨rfl, hwb⟩ := hw'
+      obtain ⟨⟨rfl, rfl⟩, hwb⟩ := hw'
       have hwf := bodyPcallMem_wf body hwb
       have hi0 : Inv (push a.st CtxDef.none) := inv_step (.push CtxDef.none) hi hl
       have mb := memrun_body { a with st := push a.st CtxDef.none } body hwb hi0 rfl hs
@@ -560,7 +568,7 @@ mutual
       | mk a1 ex =>
         rw [hr] at mb gb
         obtain ⟨p', ps', hpe, hlp, hlps, hc2, hcp, hp, hpl, hrest, hrun⟩ :=
-          call_unfold a CtxDef.none body a1 ex hr gb hl
+          call_unfold a CtxDef.none body [] a1 ex (by rw [runCall_nil]; exact hr) gb hl
         have hsame := charged_same p' (afterBody ex a1.st).cur
         have hstop : (charged p' (afterBody ex a1.st).cur).hardStopped = false := by
           unfold Frame.hardStopped; rw [hsame.2.2.2.2.1, hlp.same.2.2.2.2.1]; exact hs
@@ -568,8 +576,8 @@ mutual
         | killed res =>
           have hres := mb.cause res rfl
           subst hres
-          have hk : (runBody { a with st := push a.st CtxDef.none } body).2 = .killed .mem := by rw [hr]
-          obtain ⟨h1, _, _, _, _⟩ := limitless_bracket_propagates_mem a CtxDef.none body hwf hi hl rfl h0 hk
+          have hk : (runCall a CtxDef.none body []).2 = .killed .mem := by rw [runCall_nil, hr]
+          obtain ⟨h1, _, _, _, _⟩ := limitless_bracket_propagates_mem a CtxDef.none body [] hwf rfl hi hl rfl h0 hk
           have hflag : (afterBody (Exit.killed .mem) a1.st).cur.inhMem = true := by
             rw [(afterBody_inh _ a1.st).2, gb.inh.2]; exact child_inh_mem a.st.cur CtxDef.none rfl h0
           have hfire := propagate_mem_fires (c := (afterBody (Exit.killed .mem) a1.st).cur) hpl hflag
@@ -885,10 +893,10 @@ mutual
       | reqCpu n => simp [Item.pcallMem] at hw
       | stop l => simp [Item.pcallMem] at hw
       | due => simp [Item.pcallMem] at hw
-    | .call d body =>
-      have hw' : d = CtxDef.none ∧ bodyPcallMem body = true := by
+    | .call d body hs =>
+      have hw' : (d = CtxDef.none ∧ hs = []) ∧ bodyPcallMem body = true := by
         have := hw; unfold Item.pcallMem at this; simpa using this
-      obtain ⟨rfl, hwb⟩ := hw'
+      obtain ⟨⟨rfl, rfl⟩, hwb⟩ := hw'
       have hwf := bodyPcallMem_wf body hwb
       have hl : a.st.cur.live = true := by rw [hr.1.live]; exact hl'
       have hi0 : Inv (push a.st CtxDef.none) := inv_step (.push CtxDef.none) hi hl
@@ -904,7 +912,8 @@ mutual
         intro res hk
         have := mb'.cause res hk
         subst this
-        exact hnk _ (limitless_bracket_propagates_mem a' CtxDef.none body hwf hi' hl' rfl hr.1.hmem0 hk).1
+        exact hnk _ (limitless_bracket_propagates_mem a' CtxDef.none body [] hwf rfl hi' hl' rfl hr.1.hmem0
+          (by rw [runCall_nil]; exact hk)).1
       have sb := sim_body δ { a with st := push a.st CtxDef.none } { a' with st := push a'.st CtxDef.none } body hwb
         hr0 hi0 hi0' rfl hs' hnkb
       cases hrb : runBody { a with st := push a.st CtxDef.none } body with
@@ -916,8 +925,10 @@ mutual
           rw [hrb'] at gb' hnkb
           obtain ⟨he, hrel⟩ := sb
           simp only at he; subst he
-          obtain ⟨p1, ps1, hpe, hlp, _, _, _, _, _, _, hrun⟩ := call_unfold a CtxDef.none body a1 ex hrb gb hl
-          obtain ⟨p1', ps1', hpe', _, _, _, _, _, _, _, hrun'⟩ := call_unfold a' CtxDef.none body a1' ex hrb' gb' hl'
+          obtain ⟨p1, ps1, hpe, hlp, _, _, _, _, _, _, hrun⟩ :=
+            call_unfold a CtxDef.none body [] a1 ex (by rw [runCall_nil]; exact hrb) gb hl
+          obtain ⟨p1', ps1', hpe', _, _, _, _, _, _, _, hrun'⟩ :=
+            call_unfold a' CtxDef.none body [] a1' ex (by rw [runCall_nil]; exact hrb') gb' hl'
           rw [hrun, hrun']
           have hab := relS_afterBody ex hrel
           -- the frames restored by the two pops are related
